@@ -37,6 +37,8 @@ class C03(UtfCheck):
 
     def gen(self, rng, tier):
         quick = tier == 'quick'
+        # use of the library during program and thread shutdown (after its own statics / thread_locals are gone)
+        yield 'shutdown'
         # ---- empty and null input: every function, every route, every mode
         for fn in list(FREE) + list(STR_FROM):
             for c in all_calls(fn, []):
